@@ -838,13 +838,10 @@ Lemma emit_parts_zlen : forall sign p, parts_ok p ->
   (if sign && (negb (p_int p =? 0) || negb (p_dec p =? 0)) then 1 else 0) + Z.of_nat (declen (p_int p)) + p_tz p +
   (if p_dec p =? 0 then 0 else 1 + p_lz p + Z.of_nat (declen (p_dec p))).
 Proof.
-  intros sign p (Hi & Hd & Ht & Hl). unfold emit_parts, to_chars_uint64.
-  rewrite !zlen_app. unfold zlen at 2 3. rewrite digits_of_length, zeros_length, Z2Nat.id by lia.
-  assert (zlen (if sign && (negb (p_int p =? 0) || negb (p_dec p =? 0)) then ["-"%char] else []) =
-          (if sign && (negb (p_int p =? 0) || negb (p_dec p =? 0)) then 1 else 0)) as -> by (destruct (sign && _); reflexivity).
-  destruct (Z.eqb_spec (p_dec p) 0); cbn [negb].
-  - change (zlen []) with 0. lia.
-  - unfold zlen. cbn [List.length]. rewrite app_length, zeros_length, digits_of_length. lia.
+  intros sign p (Hi & Hd & Ht & Hl). unfold emit_parts, to_chars_uint64, zlen.
+  rewrite !app_length, digits_of_length, zeros_length.
+  destruct (sign && (negb (p_int p =? 0) || negb (p_dec p =? 0))); destruct (Z.eqb_spec (p_dec p) 0); cbn [negb List.length];
+    rewrite ?app_length, ?zeros_length, ?digits_of_length; lia.
 Qed.
 
 (* the layout of o * 10^e (o with l = declen o digits) takes at most: sign + integer digits + point + decimals *)
@@ -876,11 +873,64 @@ Proof.
       assert (small (o mod 10 ^ nexp)) as Sdp by (apply small_17; lia).
       assert (decimalLength17 (o mod 10 ^ nexp) = Z.of_nat (declen (o mod 10 ^ nexp))) as D17 by (apply decimalLength17_declen; lia).
       destruct (Z.ltb_spec (o mod 10 ^ nexp) (10 ^ (nexp - 1))) as [Hs | Hb]; cbn [p_int p_dec p_tz p_lz]; intros L _ _ _.
-      * rewrite Dip, D17 in L. destruct (sign && _), (o mod 10 ^ nexp =? 0); lia.
+      * rewrite D17 in L |- *. rewrite Dip in L. destruct (sign && _), (o mod 10 ^ nexp =? 0); lia.
       * assert (Z.of_nat (declen (o mod 10 ^ nexp)) = nexp) as Dd by (apply declen_unique_Z; try assumption; try lia).
         rewrite Dip, Dd in L. destruct (sign && _), (o mod 10 ^ nexp =? 0); lia.
     + cbn [p_int p_dec p_tz p_lz]. intros L _ _ _. change (declen 0) with 1%nat in L.
       destruct (Z.eqb_spec o 0) as [-> | No].
       * rewrite Z.eqb_refl in L. cbn [negb orb] in L. rewrite andb_false_r in L. lia.
       * destruct Hl as [-> | ->]; [congruence|]. destruct (sign && _); lia.
+Qed.
+
+Lemma declen_17 : forall o, 0 <= o < 10 ^ 17 -> Z.of_nat (declen o) <= 17.
+Proof. intros. apply declen_le; [assumption | lia | apply small_17; assumption]. Qed.
+
+Lemma to_chars_fixed_zlen : forall k g sign prec, 1 <= k < 10 ^ 17 -> 0 <= prec ->
+  zlen (to_chars_fixed k g sign prec) <= 1 + Z.max (Z.max (decimalLength17 k + g + 1) 18) (2 - g).
+Proof.
+  intros k g sign prec Hk Hp. unfold to_chars_fixed, fixed_parts.
+  pose proof (decimalLength17_declen k ltac:(lia)) as Hol. pose proof (declen_17 k ltac:(lia)) as H17.
+  destruct (Z.leb_spec 0 g) as [Hg | Hg].
+  - pose proof (split_parts_zlen sign k g (decimalLength17 k) ltac:(lia) ltac:(right; assumption) ltac:(lia)) as L.
+    destruct (Z.eqb_spec k 0); [lia|]. destruct (Z.leb_spec 0 g); lia.
+  - pose proof (adapt_spec k g prec Hk Hg Hp) as HA.
+    destruct (adapt k g (decimalLength17 k) prec) as [[o' e'] l'].
+    destruct HA as (A1 & A2 & A3 & A4 & A5 & A6 & A7 & A8).
+    pose proof (split_parts_zlen sign o' e' l' A4 A5 A7) as L.
+    destruct (Z.eqb_spec o' 0); [lia|].
+    assert (l' <= 17) by (destruct A5 as [-> | ->]; [lia | apply declen_17; assumption]).
+    specialize (A8 ltac:(lia)).
+    destruct (Z.leb_spec 0 e'); [lia|]. destruct (Z.ltb_spec (- e') l'); lia.
+Qed.
+
+Definition uses_fixed (d : dbl) : bool :=
+  match d with DFin _ m2 e2 _ => negb (dy_leb c1e17_m 0 m2 e2 || dy_ltb m2 e2 c1e_4_m c1e_4_e) | _ => false end.
+
+(* the C buffer is char[28] (27 characters + NUL): the layout never needs more than 24 *)
+Theorem trimmed_length_bound : forall d k g prec, 1 <= k < 10 ^ 17 -> 0 <= prec ->
+  Z.abs (g + decimalLength17 k - 1) <= 999 ->
+  (uses_fixed d = true -> -4 <= g + decimalLength17 k <= 17) ->
+  zlen (print_trimmed_sd d (k, g) prec) <= 24.
+Proof.
+  intros d k g prec Hk Hp HE Hfix.
+  pose proof (decimalLength17_declen k ltac:(lia)) as Hol. pose proof (declen_17 k ltac:(lia)) as H17.
+  destruct (declen_spec k (small_17 k ltac:(lia))) as (D1 & _).
+  assert (forall d', match d' with DFin _ _ _ _ => True | _ => zlen (special_str d') <= 24 end) as Hsp.
+  { intros [s | s | s | s m2 e2 c]; try exact I; try destruct s; cbn; lia. }
+  unfold print_trimmed_sd. destruct d as [s | s | s | s m2 e2 c];
+    try (cbn [d2sfixed_sd]; first [apply (Hsp (DZero s)) | apply (Hsp (DInf s)) | apply (Hsp (DNaN s))]).
+  cbn [uses_fixed] in Hfix.
+  destruct (dy_leb c1e17_m 0 m2 e2 || dy_ltb m2 e2 c1e_4_m c1e_4_e).
+  - (* exponent notation *)
+    cbn [d2sexp_sd fst snd]. rewrite zlen_app.
+    pose proof (to_chars_fixed_zlen k (1 - decimalLength17 k) s prec Hk Hp) as L.
+    assert (zlen (exp_suffix (g + decimalLength17 k - 1)) <= 5) as LE.
+    { unfold exp_suffix, zlen. cbn [List.length]. rewrite digits_of_length.
+      assert (Z.of_nat (declen (Z.abs (g + decimalLength17 k - 1))) <= 3); [|lia].
+      apply declen_le; [pow_norm; lia | lia | apply small_17; pow_norm; lia]. }
+    lia.
+  - cbn [d2sfixed_sd fst snd]. specialize (Hfix eq_refl).
+    set (p' := if (prec <? 4) && dy_ltb m2 e2 1 0 then Z.max prec (neg_floor_log10 m2 e2) else prec).
+    assert (0 <= p') by (unfold p'; destruct ((prec <? 4) && dy_ltb m2 e2 1 0); lia).
+    pose proof (to_chars_fixed_zlen k g s p' Hk H) as L. lia.
 Qed.
